@@ -85,6 +85,12 @@ SCENARIOS = {
     "v2p.file.flat.plain": ("volume_to_precomputed", False, ["--flat", "--no-gzip"]),
     "v2p.sharded": ("volume_to_precomputed", True, []),
     "v2p.geninfo": ("volume_to_precomputed:geninfo", False, []),
+    "gsi": ("generate_scales_info", False, []),
+    "pyramid": ("volume_to_precomputed_pyramid", False, []),
+    "slices": ("slices_to_precomputed", False, []),
+    "slices.sharded": ("slices_to_precomputed", True, []),
+    "mesh": ("mesh_to_precomputed", False, []),
+    "links": ("link_mesh_fragments", False, []),
     "compute.file": ("compute_scales", False, []),
     "compute.sharded": ("compute_scales", True, []),
     "convert.file_to_sharded": ("convert_chunks", True, []),
@@ -102,8 +108,63 @@ def setup(name, sandbox):
         ds = os.path.join(sandbox, "ds")
         os.makedirs(ds)
         return mod, [vol, ds, "--generate-info"] + opts, ds, [
-            ("file", os.path.join(ds, "info_fullres.json"), "target"),
-            ("file", os.path.join(ds, "transform.json"), "target")]
+            ("file", ds, "info_fullres.json", "target", "json"),
+            ("file", ds, "transform.json", "target", "json")]
+    if tool == "generate_scales_info":
+        ds = os.path.join(sandbox, "ds")
+        os.makedirs(ds)
+        full = os.path.join(sandbox, "info_fullres.json")
+        with open(full, "w") as f:
+            json.dump({"type": "image", "data_type": "uint8", "num_channels": 1,
+                       "scales": [{"size": [9, 8, 5], "resolution": [1e6, 1e6, 2e6], "voxel_offset": [0, 0, 0],
+                                   "chunk_sizes": [], "encoding": "raw", "key": "full"}]}, f)
+        return mod, [full, ds, "--target-chunk-size", "4"] + opts, ds, [("file", ds, "info", "target", "json")]
+    if tool == "volume_to_precomputed_pyramid":
+        vol = _volume(sandbox, (130, 2, 2), 5)       # the tool has no chunk-size option: 64^3 chunks
+        ds = os.path.join(sandbox, "ds")
+        os.makedirs(ds)
+        return mod, [vol, ds, "--downscaling-method", "stride"] + opts, ds, [
+            ("file", ds, "info", "target", "json"), (ds, {"*": "target"})]
+    if tool == "slices_to_precomputed":
+        from PIL import Image
+        sl = os.path.join(sandbox, "slices")
+        os.makedirs(sl)
+        rng = np.random.default_rng(11)
+        for k in range(3):
+            Image.fromarray(rng.integers(1, 250, size=(4, 5), dtype=np.uint8)).save(
+                os.path.join(sl, "s%02d.png" % k))
+        ds = os.path.join(sandbox, "ds")
+        info = {"type": "image", "data_type": "uint8", "num_channels": 1,
+                "scales": [_scale("k", [5, 4, 3], 2, 1e6, sharded)]}
+        _write_info(ds, info)
+        return mod, [sl, ds, "--input-orientation", "RAS"] + opts, ds, [(ds, {"k": "target"})]
+    if tool in ("mesh_to_precomputed", "link_mesh_fragments"):
+        ds = os.path.join(sandbox, "ds")
+        info = {"type": "segmentation", "data_type": "uint32", "num_channels": 1,
+                "scales": [_scale("k", [4, 4, 2], 2, 1e6, False)]}
+        if tool == "link_mesh_fragments":
+            info["mesh"] = "mesh"
+        _write_info(ds, info)
+        if tool == "mesh_to_precomputed":
+            import nibabel
+            from nibabel import gifti
+            pts = np.array([[0, 0, 0], [1, 0, 0], [0, 1, 0], [0, 0, 1]], dtype=np.float32)
+            tri = np.array([[0, 2, 1], [0, 1, 3], [0, 3, 2], [1, 2, 3]], dtype=np.int32)
+            g = gifti.GiftiImage(darrays=[
+                gifti.GiftiDataArray(pts, intent="NIFTI_INTENT_POINTSET", datatype="NIFTI_TYPE_FLOAT32"),
+                gifti.GiftiDataArray(tri, intent="NIFTI_INTENT_TRIANGLE", datatype="NIFTI_TYPE_INT32")])
+            mp = os.path.join(sandbox, "frag.gii")
+            nibabel.save(g, mp)
+            return mod, [mp, ds] + opts, ds, [("file", ds, "info", "target", "json"),
+                                              ("file", ds, "mesh/frag", "target", "mesh")]
+        os.makedirs(os.path.join(ds, "mesh"))
+        for nm in ("fa", "fb"):
+            with open(os.path.join(ds, "mesh", nm), "wb") as f:
+                f.write(b"\0" * 4)
+        csvp = os.path.join(sandbox, "links.csv")
+        with open(csvp, "w") as f:
+            f.write("1,fa\n2,fa,fb\n3,fb\n")
+        return mod, [csvp, ds] + opts, ds, [("file", ds, "mesh/%d:0" % n, "target", "json") for n in (1, 2, 3)]
     if tool == "volume_to_precomputed":
         vol = _volume(sandbox, (4, 4, 2), 5)
         ds = os.path.join(sandbox, "ds")
@@ -136,14 +197,22 @@ def snapshot(datasets):
     out = {}
     for ent in datasets:
         if ent[0] == "file":
-            _, path, role = ent
+            # a named file of the dataset, read the way a reader does: through a fresh
+            # accessor (plain or .gz) and parsed (a torn file is detectably invalid)
+            _, d, rel, role, kind = ent
             try:
-                with open(path, "rb") as f:
-                    raw = f.read()
-                json.loads(raw)      # a reader of a metadata file parses it: a torn file is detectably invalid
-                out[("file", os.path.basename(path))] = ({"st": "ok", "data": list(raw)}, role)
-            except (OSError, ValueError) as e:
-                out[("file", os.path.basename(path))] = ({"st": "exc", "data": [], "cls": type(e).__name__}, role)
+                raw = accessor.get_accessor_for_url(d).fetch_file(rel)
+                if kind == "json":
+                    json.loads(raw)
+                elif kind == "mesh":
+                    import struct
+                    nv, = struct.unpack("<I", raw[:4])
+                    rest = len(raw) - 4 - 12 * nv
+                    if rest < 0 or rest % 12:
+                        raise ValueError("mesh fragment length")
+                out[("file", rel)] = ({"st": "ok", "data": list(raw)}, role)
+            except Exception as e:
+                out[("file", rel)] = ({"st": "exc", "data": [], "cls": type(e).__name__}, role)
             continue
         d, roles = ent
         try:
@@ -154,7 +223,7 @@ def snapshot(datasets):
                 out[(d, key)] = ("unreadable:" + type(e).__name__, role)
             continue
         for sc in r.info["scales"]:
-            role = roles.get(sc["key"])
+            role = roles.get(sc["key"], roles.get("*"))
             if role is None:
                 continue
             for c in _grid(sc["size"], sc["chunk_sizes"][0]):
@@ -209,6 +278,7 @@ def run_once(workdir, name, plan, reference=None):
     try:
         mod, args, root, datasets = setup(name, sandbox)
         report = os.path.join(sandbox, "report.json")
+        pre = snapshot(datasets)       # what the destination held before the command
         env = dict(os.environ, PYTHONDONTWRITEBYTECODE="1", TMPDIR=sandbox)
         p = subprocess.run([sys.executable, CHILD, root, json.dumps(plan) if plan else "null", report, mod] + args,
                            env=env, capture_output=True, text=True, timeout=120)
@@ -220,7 +290,7 @@ def run_once(workdir, name, plan, reference=None):
         exc, is_os, is_da = _exc_facts(p.stderr) if p.returncode not in (0, 137) else ("", False, False)
         if p.returncode not in (0, 137) and not exc:
             is_os = True        # the tool reported the error itself (logged, non-zero status)
-        return {"rc": p.returncode, "calls": rep["calls"], "fired": rep["fired"], "snap": snap,
+        return {"rc": p.returncode, "calls": rep["calls"], "fired": rep["fired"], "snap": snap, "pre": pre,
                 "exc": exc, "osErr": is_os, "dataAccess": is_da, "stderr_tail": p.stderr[-400:]}
     finally:
         shutil.rmtree(sandbox, ignore_errors=True)
@@ -235,8 +305,10 @@ def to_case(run, ref, plan):
             got = {"st": "exc", "data": []}
         exp = val["data"] if isinstance(val, dict) else []
         if role == "target":
-            targets.append({"st": got["st"], "data": got["data"], "new": exp, "hasold": False, "old": [],
-                            "ast": "exc", "adata": []})
+            was = run.get("pre", {}).get(k, (None, role))[0]
+            hasold = isinstance(was, dict) and was["st"] == "ok"
+            targets.append({"st": got["st"], "data": got["data"], "new": exp, "hasold": hasold,
+                            "old": was["data"] if hasold else [], "ast": "exc", "adata": []})
         else:
             others.append({"st": got["st"], "data": got["data"], "exp": exp})
     mode = plan["mode"] if plan else "none"
